@@ -83,6 +83,12 @@ func c15BaseScripts() []c15Base {
 	// block 1, grow to 64 KiB in block 2; response direction: grow to 64 KiB in block 0), SETTINGS frames
 	// that carry SETTINGS_HEADER_TABLE_SIZE
 	pairs = append(pairs, c15Pair{A: q[10], B: q[1], Tab: c15Tab{Req: "zero@1-grow64k@2", Resp: "grow64k@0"}})
+	// PADDED DATA / HEADERS frames (pad length 7; DATA frames without any data byte), HEADERS with PRIORITY,
+	// PRIORITY / PING / unknown-type frames in between: corrupting the first payload byte of a padded frame
+	// makes its pad length exceed the frame
+	pairs = append(pairs, c15Pair{
+		A: c15Shape{Named: true, NReq: 1, NResp: 1, Pad: 7 + 1, PadOnly: true, PadHdr: true},
+		B: c15Shape{Named: true, NReq: 1, NResp: 0, Prio: true, Extra: true}})
 	for _, p := range pairs {
 		bt := c15Build(p)
 		var orders [][]byte
